@@ -136,63 +136,97 @@ def g4_batch_construction(prog):
     compute `own column length == len AND tail agrees` (truth table); in-crate callers of new_unchecked
     are Batch::new and the canonicalisation in World::extend; Batch/World/Archetype fields are private."""
     r = Result()
+    S = pathsem.strip_refs
     aggs = aggregates_of(prog, 'entities::Batch')
-    for fn, b, i, s in aggs:
+    adt = prog.adts.get('entities::Batch')
+    names = [f_['name'] for f_ in adt['variants'][0]['fields']] if adt else []
+    if 'len' not in names or 'entities' not in names:
+        r.viol('G4', 'no-batch-aggregate', '-', 'Batch { entities, len } not found')
+        return r
+    li, ei = names.index('len'), names.index('entities')
+
+    def is_check(a_, ent):
+        """check_len(ent), or what it is defined as: check_len_against(ent, component_len(ent))"""
+        if not (isinstance(a_, tuple) and a_[0] == 'call'):
+            return False
+        nm = a_[1].rsplit('::', 1)[-1]
+        if nm == 'check_len' and len(a_[2]) == 1:
+            return S(S(a_[2][0])) == S(ent)
+        if nm == 'check_len_against' and len(a_[2]) == 2 and S(S(a_[2][0])) == S(ent):
+            n_ = S(a_[2][1])
+            return isinstance(n_, tuple) and n_[0] == 'call' and n_[1].endswith('::component_len') and S(S(n_[2][0])) == S(ent)
+        return False
+    for fn in {fn.dp: fn for fn, b_, i_, s_ in aggs}.values():
         r.inst('Batch aggregate in %s' % fn.path)
-        if not (fn.name == 'new_unchecked' and fn.d.get('unsafe')):
-            r.viol('G4', fn.path + '/batch-literal', fn.loc(s['ln']), 'a Batch is built outside the unsafe unchecked constructor: ragged columns could reach extend')
-        else:
-            # len field from component_len of the entities argument
-            adt = prog.adts['entities::Batch']
-            names = [f_['name'] for f_ in adt['variants'][0]['fields']]
-            li = names.index('len')
-            lv = op_local(s['rv']['ops'][li])
-            d = single_def(fn.body, access_of_local(fn.body, lv).root) if lv is not None else None
-            if not (d and d[0] == 'call' and d[2]['f']['name'] == 'component_len'):
-                r.viol('G4', fn.path + '/len-not-component-len', fn.loc(s['ln']), 'Batch.len is not taken from entities.component_len()')
+        top = owner_fn(prog, fn) if fn.kind == 'Closure' else fn
+        E = pathsem.analyse(prog, top)
+        rets = [p for p in E.paths if p.ended == 'return']
+        if E.truncated or not rets:
+            r.viol('G4', fn.path + '/not-analysable', fn.loc(), 'path enumeration cut off')
+            continue
+        unchecked_ctor = top.name == 'new_unchecked' and top.d.get('unsafe')
+        seen = set()
+        for p in rets:
+            built = set()
+            for root in [p.ret] + [e['value'] for e in p.events if e['k'] == 'store'] + [a_ for e in p.events if e['k'] == 'call' for a_ in e['args']]:
+                for t in pathsem.subterms(root):
+                    if isinstance(t, tuple) and t[0] == 'agg' and t[1] == 'entities::Batch':
+                        built.add(t)
+            for t in built:
+                ent, ln_ = t[4][ei], t[4][li]
+                ok_len = isinstance(ln_, tuple) and ln_[0] == 'call' and ln_[1].endswith('::component_len') and S(S(ln_[2][0])) == S(ent)
+                if not ok_len and 'len' not in seen:
+                    seen.add('len')
+                    r.viol('G4', fn.path + '/len-not-component-len', fn.loc(), 'Batch.len is not taken from entities.component_len() (got %s)' % pathsem.tstr(ln_)[:80])
+                if not unchecked_ctor:
+                    if not any(v is True and is_check(a_, ent) for a_, v in p.conds) and 'lit' not in seen:
+                        seen.add('lit')
+                        r.viol('G4', fn.path + '/batch-literal', fn.loc(), 'a Batch is built outside the unsafe unchecked constructor without a successful check_len() of its columns: ragged columns could reach extend')
     if not aggs:
         r.viol('G4', 'no-batch-aggregate', '-', 'Batch construction site not found')
     # callers of new_unchecked
     for f in prog.fns.values():
-        for b, t in f.body.calls(lambda c: c['name'] == 'new_unchecked' and 'entities::Batch' in c['path']):
-            r.inst('new_unchecked called from %s' % f.path[:100])
-            if f.name == 'new' and f.path.startswith('entities::Batch'):
-                body = f.body
-                cl = [(cb, ct) for cb, ct in body.calls(lambda c: c['name'] == 'check_len')]
-                ok = False
-                for cb, ct in cl:
-                    d = ct['dest']['l']
-                    der = derived(body, {d})
-                    for sb in range(body.n):
-                        st = body.term(sb)
-                        if st['k'] == 'switch' and op_local(st['discr']) in der and 0 in st['values']:
-                            ft = st['targets'][st['values'].index(0)]
-                            tt = st['otherwise']
-                            neg = is_negated(body, op_local(st['discr']), d)
-                            good = ft if neg else tt
-                            if body.edge_dominates((sb, good), b):
-                                ok = True
-                if not ok:
-                    r.viol('G4', f.path + '/unchecked', f.loc(t['ln']), 'Batch::new reaches new_unchecked without a successful check_len(): ragged columns accepted')
-            elif f.name == 'extend' and f.path.startswith('world::World'):
-                # argument must be a canonicalisation of an existing (already checked) batch
-                a = op_local(t['args'][0])
-                d = single_def(f.body, access_of_local(f.body, a).root) if a is not None else None
-                if not (d and d[0] == 'call' and d[2]['f']['name'] == 'canonical'):
-                    r.viol('G4', f.path + '/extend-builds-batch', f.loc(t['ln']), 'World::extend builds an unchecked Batch from something other than the canonical form of the checked batch')
-            else:
-                r.viol('G4', f.path + '/new-unchecked-caller', f.loc(t['ln']), 'unexpected in-crate caller of Batch::new_unchecked')
+        sites = list(f.body.calls(lambda c: c['name'] == 'new_unchecked' and 'entities::Batch' in c['path']))
+        if not sites:
+            continue
+        b, t = sites[0]
+        r.inst('new_unchecked called from %s' % f.path[:100])
+        if f.path.startswith('entities::Batch') and not f.d.get('unsafe'):
+            E = pathsem.analyse(prog, f)
+            bad = E.truncated
+            for p in E.paths:
+                for e in p.calls(lambda e: e['name'] == 'new_unchecked' and 'entities::Batch' in e['path']):
+                    ent = S(e['args'][0])
+                    if not any(v is True and is_check(a_, ent) for a_, v in zip([c[0] for c in p.conds], [c[1] for c in p.conds])):
+                        bad = True
+            if bad:
+                r.viol('G4', f.path + '/unchecked', f.loc(t['ln']), 'Batch::new reaches new_unchecked without a successful check_len(): ragged columns accepted')
+        elif f.name == 'extend' and f.path.startswith('world::World'):
+            # argument must be a canonicalisation of an existing (already checked) batch
+            a = op_local(t['args'][0])
+            d = single_def(f.body, access_of_local(f.body, a).root) if a is not None else None
+            if not (d and d[0] == 'call' and d[2]['f']['name'] == 'canonical'):
+                r.viol('G4', f.path + '/extend-builds-batch', f.loc(t['ln']), 'World::extend builds an unchecked Batch from something other than the canonical form of the checked batch')
+        else:
+            r.viol('G4', f.path + '/new-unchecked-caller', f.loc(t['ln']), 'unexpected in-crate caller of Batch::new_unchecked')
     # check_len / check_len_against truth tables
     for imp in prog.facts['impls']:
         if imp['trait'] and imp['trait']['path'].endswith('entities::sealed::length::Length') and imp['self'].get('k') == 'tuple':
             ms = {f.name: f for f in prog.impl_methods(imp)}
+            tp = imp['trait']['path']
+            # a method the impl does not override is the trait's provided body with Self = this impl
+            for g in prog.fns.values():
+                if g.kind == 'AssocFn' and g.path.rsplit('::', 1)[0] == tp and g.name not in ms:
+                    ms[g.name] = g
+            selfm = {(tp, n): g for n, g in ms.items()}
             tail = imp['self']['e'][1]
             for name in ('check_len', 'check_len_against'):
                 f = ms.get(name)
                 if f is None:
                     r.viol('G4', 'length/missing-' + name, impl_loc(imp), name + ' not found')
                     continue
-                E = pathsem.analyse(prog, f)
+                # calls on this same value (Self) are followed into this impl's methods; calls on the tail stay atoms
+                E = pathsem.analyse(prog, f, self_methods=selfm, inline=lambda c, f=f: c.dp != f.dp and c.dp in {g.dp for g in selfm.values()})
                 rets = [p for p in E.paths if p.ended == 'return']
                 r.inst('Length::%s: %d returning paths' % (name, len(rets)))
                 if E.truncated or not rets or any(p.ret not in (pathsem.TRUE, pathsem.FALSE) for p in rets):
